@@ -54,6 +54,11 @@ func runC04(c *Ctx) {
 	hyperLeafConservation(c, "R13")
 	hyperShortcutPersist(c, "R13")
 	hyperInsertSortedDuplicates(c, "R13")
+	hyperShortcutArgs(c, "R13")
+	hyperPushDownResets(c, "R13")
+	hyperOrderingConvention(c, "R9")
+	recoveryHeightAgreement(c, "R11")
+	cacheTilesPersistedAlways(c, "R11")
 	c.Rule("R14", "a replica built by state transfer receives every batch it lacks (the transfer filter skips exactly what the follower has)", 2)
 	fsmValidate(c, "R14")
 }
